@@ -56,6 +56,41 @@ Theorem C27_gap_match_determines_hex :
 Proof. exact gap_match_determines_hex. Qed.
 Print Assumptions C27_gap_match_determines_hex.
 
+(* ---- which data is verified (detached vs encapsulated CMS content) ---- *)
+(* whatever the CMS carries (and whatever the SubFilter says), the digest comparison hashes the
+   /ByteRange bytes *)
+Theorem C27_hashed_data_is_byte_range_data :
+  forall cmsContent data, hashedData (dataToVerify cmsContent data) = data.
+Proof. exact hashed_data_is_byte_range_data. Qed.
+Print Assumptions C27_hashed_data_is_byte_range_data.
+
+Theorem C27_p7_unmodified_hashes_byte_range :
+  forall attrOK sha1eq sigOK cmsContent data,
+  p7Verdict attrOK sha1eq sigOK cmsContent data = TFalse ->
+  sigOK = true /\
+  ((cmsContent = [] /\ attrOK data = true) \/
+   (cmsContent <> [] /\ sha1eq data cmsContent = true /\ attrOK cmsContent = true)).
+Proof. exact p7_unmodified_hashes_byte_range. Qed.
+Print Assumptions C27_p7_unmodified_hashes_byte_range.
+
+(* no eContent: unmodified ==> the digest of signedData(file, ByteRange) is the signed digest *)
+Theorem C27_detached_unmodified_hashes_signed_data :
+  forall attrOK sha1eq sigOK fsize f arr contents increment dts,
+  docModified (p7Verdict attrOK sha1eq sigOK []) fsize f arr contents increment dts = TFalse ->
+  exists data, signedData f arr contents = Ok data /\ attrOK data = true.
+Proof. exact detached_unmodified_hashes_signed_data. Qed.
+Print Assumptions C27_detached_unmodified_hashes_signed_data.
+
+(* forged eContent: the originally signed bytes D injected as CMS content never yield
+   "unmodified", for any file, ranges, signature outcome and any 20-byte-valued SHA1 *)
+Theorem C27_forged_econtent_document_not_unmodified :
+  forall (sha1 : list N -> list N) attrOK sigOK D fsize f arr contents increment dts,
+  (forall x, length (sha1 x) = 20%nat) -> length D <> 20%nat -> D <> [] ->
+  docModified (p7Verdict attrOK (fun d c => eqbList (sha1 d) c) sigOK D)
+              fsize f arr contents increment dts <> TFalse.
+Proof. exact forged_econtent_document_not_unmodified. Qed.
+Print Assumptions C27_forged_econtent_document_not_unmodified.
+
 (* non-vacuity: "AB<4a>CD" vs "AX<4a>CD", /ByteRange [0 2 6 2]: both pass signedData, offset 1 is
    signed, the signed data differ; with the identity as digest the second is not accepted *)
 Example C27_nonvacuous :
